@@ -2,7 +2,7 @@
    sumbool map to OCaml's; N, Z, positive, nat stay the extracted inductive types. *)
 From Coq Require Import Extraction ExtrOcamlBasic.
 From Coq Require Import ZArith NArith List.
-From Lithium Require Import PyBase TcRecord Util Testcase Driver Minimize PyLines Markers Splitters SplitJs SplitAttrs StatusTypes Status.
+From Lithium Require Import PyBase TcRecord Util Testcase Driver Minimize PyLines Markers Splitters SplitJs SplitAttrs StatusTypes Status Pairs Interest TempDir.
 Extraction Language OCaml.
 Extraction "model.ml"
   Util.divide_rounding_up Util.is_power_of_two Util.largest_power_of_two_smaller_than
@@ -11,4 +11,6 @@ Extraction "model.ml"
   Driver.run Driver.run_check_only Driver.replay
   PyLines.splitlines Markers.find_markers Splitters.load_line Splitters.load_char Splitters.load_symbol
   Splitters.DEFAULT_CUT_AFTER Splitters.DEFAULT_CUT_BEFORE SplitJs.load_jsstr SplitAttrs.load_attrs
+  Pairs.pairs Interest.outputs_mem Interest.outputs_file Interest.diff_mem Interest.diff_file Interest.repeat_loop
+  TempDir.create_temp_dir TempDir.run_sched TempDir.results TempDir.proc0
   Status.classify Status.reported_code Status.crashes_verdict Status.hangs_verdict Minimize.minimize Minimize.no_post.
